@@ -166,6 +166,7 @@ class C05(Oracle):
         w = {
             "doc": 1, "bundle": 2, "add_ns": 4, "set_default": rng.choice([0, 1]),
             "rec": 18, "add_attrs": 6, "set_time": 3, "add_type": 2, "resolve": 0,
+            "export": rng.choice([0, 0, 1]), "peek": rng.choice([0, 1]), "unified": rng.choice([0, 0, 1]),
         }
         prof = {
             "w": w,
